@@ -58,7 +58,8 @@ def scan_forbidden() -> list[str]:
                     in_section += 1
                 if re.match(r"\s*End\b", line) and in_section:
                     in_section -= 1
-                m = FORBIDDEN.search(line)
+                line_ns = re.sub(r'"(?:[^"]|"")*"', '""', line)     # string literals are data, not vernacular
+                m = FORBIDDEN.search(line_ns)
                 if m:
                     if m.group(1) in ("Hypothesis", "Variable", "Variables") and in_section:
                         continue
